@@ -1,9 +1,9 @@
 (* The scope the runner marks with `(th ..)`: the union of the widest executable scopes of the
-   end-to-end C01 theorem (Properties/C01_matrix.v scope_all_sound, Properties/C01_sh0w.v
-   scope_quant_all_sound_w -- which contains Properties/C01_d15.v scope_quant_all_sound_noq --
-   and Properties/C01_nomatch.v scope_quant_all_sound_nm).  Properties/C01_wide.v states the
+   end-to-end C01 theorem (Properties/C01_matrix.v scope_all_sound and Properties/C01_final.v
+   scope_quant_all_sound_f, which contains the scopes of Properties/C01_sh0w.v, C01_nomatch.v
+   and C01_d15.v).  Properties/C01_wide.v states the
    theorem for it. *)
-From TauModel Require Import Base Num Oracles Syntax Value Solver Rule Keys Optimiser Known Scope Scope2 Scope4 Scope5.
+From TauModel Require Import Base Num Oracles Syntax Value Solver Rule Keys Optimiser Known Scope Scope2 Scope4 Scope5 Scope6.
 
 Definition c01_scope_wide (o : oracles) (ord : hord) (sw : switches) (dt : detection) : bool :=
-  c01_scope_all o ord sw dt || c01_scope_quant_all_w o ord sw dt || c01_scope_quant_all_nm o ord sw dt.
+  c01_scope_all o ord sw dt || c01_scope_quant_all_f o ord sw dt.
